@@ -273,6 +273,18 @@ func ReceiverWrites(p *load.Program, rels ...string) []struct{ Key, Pos, What st
 					if fromRecv(x.Map) {
 						out = append(out, struct{ Key, Pos, What string }{p.FuncKey(root), p.Pos(x.Pos()), "map update through the receiver"})
 					}
+				case *ssa.Call:
+					// a mutating method of a synchronised container held by the receiver (sync.Map, atomic values)
+					if callee := x.Call.StaticCallee(); callee != nil && callee.Pkg != nil && len(x.Call.Args) > 0 {
+						pp := callee.Pkg.Pkg.Path()
+						if (pp == "sync" || pp == "sync/atomic") && fromRecv(x.Call.Args[0]) {
+							switch callee.Name() {
+							case "Load", "Range", "Lock", "Unlock", "RLock", "RUnlock", "Do", "Wait":
+							default:
+								out = append(out, struct{ Key, Pos, What string }{p.FuncKey(root), p.Pos(x.Pos()), "write to a synchronised container held by the receiver (" + callee.Name() + ")"})
+							}
+						}
+					}
 				}
 			}
 		}
